@@ -36,7 +36,7 @@ CHECKER = 'lake build KatdalModel.Props.C10 kd_c10 && lake env lean <#print axio
 
 # ------------------------------------------------------------------ value alphabets (8 codes each)
 
-WRAPPED = ('tuple', 'arr', 'list', 'wstr')
+WRAPPED = ('tuple', 'arr', 'arrs', 'list', 'wstr')
 _STR = ['slew', 'track', 'stop', 'scan', 'A', 'B', 'nd_on', '']
 ALPHA = {
     'str': list(_STR),
@@ -44,6 +44,9 @@ ALPHA = {
     'bool': [False, True],
     'tuple': [(i, i + 1) for i in range(8)],
     'arr': [np.array([i, 2 * i + 1]) for i in range(8)],
+    # arrays of DIFFERENT shapes, several of which are equal after broadcasting (but are different values)
+    'arrs': [np.ones(1), np.ones(4), np.ones((2, 2)), np.ones(2), np.zeros(1), np.zeros(3), np.array([1, 2]),
+             np.array([[1, 2], [1, 2]])],
     'list': [[i, 'x%d' % i] for i in range(8)],
     'wstr': ['w' + s for s in _STR],
 }
@@ -129,7 +132,7 @@ def gen_case(rng, stream='s2c'):
     elif mode < 0.28:                                # nothing inside
         ts = [t for t in ts if t <= lo or t > ends[-1]]
     ts.sort()
-    alpha = rng.choice(['str', 'str', 'str', 'int', 'bool', 'tuple', 'arr', 'list', 'wstr'])
+    alpha = rng.choice(['str', 'str', 'str', 'int', 'bool', 'tuple', 'arr', 'arrs', 'list', 'wstr'])
     ncodes = len(ALPHA[alpha])
     k = min(ncodes, rng.randint(2, 4))
     codes = rng.sample(range(ncodes), k)
@@ -153,7 +156,7 @@ def gen_case(rng, stream='s2c'):
     if rng.random() < 0.75:
         pool = sorted(set(tcodes) | ({init} if init is not None else set()) | {rng.randrange(ncodes)})
         greedy = rng.sample(pool, rng.randint(1, min(3, len(pool))))
-    if alpha == 'arr' and greedy and rng.random() < 0.9:
+    if alpha in ('arr', 'arrs') and greedy and rng.random() < 0.9:
         greedy = []                                  # ndarray greedy values are a known finding: keep it rare
     case = dict(kind=stream, ends=ends, h=h, ts=ts, vals=vals, alpha=alpha, tr=tr, init=init, greedy=greedy,
                 rep=rng.random() < 0.3, t0=rng.choice([0.0, 0.0, 1.5e9, -1000.0, 123456.75]),
@@ -525,7 +528,7 @@ def m_empty_sensor_arraylike_initial(case, what):
 def m_ndarray_greedy(case, what):
     """known finding (c): greedy_values holding ndarrays -> ValueError (ambiguous truth value) as soon as one
     sensor value is tested for membership"""
-    return case.get('alpha') == 'arr' and bool(case['greedy']) and 'raised ValueError' in what
+    return case.get('alpha') in ('arr', 'arrs') and bool(case['greedy']) and 'raised ValueError' in what
 
 
 MATCHERS = {'c10_empty_sensor_arraylike_initial_value': m_empty_sensor_arraylike_initial,
